@@ -775,7 +775,8 @@ pub fn run(tier: &str, seed: u64, out: &mut Out) {
             rejected: 0,
             viol: vec![],
             closing_at: if rng.chance(2, 5) { Some(ncalls * (3 + rng.below(5) as usize) / 10) } else { None },
-            no_supplied: false,
+            // every third history never supplies a type, so that all stored types are inferred ones
+            no_supplied: hi % 3 == 0,
             finalized: HashSet::new(),
         };
         run_history(&mut h, ncalls, &mut tags, out, "");
@@ -802,7 +803,7 @@ pub fn run(tier: &str, seed: u64, out: &mut Out) {
         }
         // reload oracle: every stored node type must be the one type inference re-derives when the
         // context is rebuilt from its serialized form (catches stale entries of the type cache)
-        for c in h.w.ctxs.iter() {
+        for c in h.w.ctxs.iter().filter(|_| h.no_supplied) {
             if let Ok(text) = serde_json::to_string(c) {
                 if let Ok(c2) = serde_json::from_str::<Context>(&text) {
                     'outer: for (g1, g2) in c.get_graphs().iter().zip(c2.get_graphs().iter()) {
